@@ -247,7 +247,11 @@ func TestVerifMain(t *testing.T) {
 	for ci, c := range cases {
 		// if the process dies inside this case (a fault in the library is not recoverable) the driver finds it here
 		os.WriteFile(curPath, []byte("# origin "+c.origin+"\n"+strings.Join(c.ops, "\n")+"\n"), 0o644)
+		tCase := time.Now()
 		res := vSafeExec(p, c.ops)
+		if d := time.Since(tCase); d > 100*time.Millisecond && os.Getenv("VERIF_TIMING") != "" {
+			fmt.Fprintf(os.Stderr, "slow case %d (%v): %s\n", ci, d, strings.Join(c.ops, ";"))
+		}
 		if !res.noModel {
 			fmt.Fprintf(opsW, "case %d\n", ci)
 			fmt.Fprintf(implW, "case %d\n", ci)
